@@ -40,7 +40,7 @@ PROPS = {
     "C19": P(160000, 3000000, expect_reach=["waitlist.timeout_unlink_head", "waitlist.timeout_unlink_middle", "waitlist.timeout_unlink_tail", "waitlist.deadline_passed_but_signalled", "c19.timeouts", "c19.signal_with_certain_waiter", "pool.far_waits_that_got_a_unit", "pool.empty_blocking_pops_checked"],
              assumptions=["deadlines are relative to the run's virtual time scale; TIMEDOUT is checked against the virtual clock, never against elapsed steps"]),
     "C01": P(140000, 3000000, expect_reach=["sched.stacked_scheduler_stops", "c01.stacked_sched_finish_requests", "c01.late_cancels_before_revive"], assumptions=["units that create other units finish before streams are joined (a creation racing with the join of the only stream serving the target pool is the program's error)"]),
-    "C03": P(160000, 3000000, expect_reach=["join.suspend_join", "join.exiting_ult_waits_for_p_link", "join.yield_loop_for_tasklet", "join.futex_wait", "join.fallback_yield_loop_target_terminating"], assumptions=["one joiner per target (API contract); a tasklet joiner only joins targets served by other streams; unbounded yield loops are kept where the strict pool priority of the predefined schedulers cannot starve the awaited unit"]),
+    "C03": P(160000, 3000000, expect_reach=["join.suspend_join", "join.exiting_ult_waits_for_p_link", "join.yield_loop_for_tasklet", "join.futex_wait", "join.fallback_yield_loop_target_terminating", "c03.revived_targets_joined_again"], assumptions=["one joiner per target (API contract); a tasklet joiner only joins targets served by other streams; unbounded yield loops are kept where the strict pool priority of the predefined schedulers cannot starve the awaited unit"]),
     "C05": P(160000, 3000000, expect_reach=["c05.signal_with_certain_waiter", "c05.broadcast_with_certain_waiters"],
              assumptions=["waiters and in-mutex signallers follow the monitor discipline; no oracle encodes timing"]),
     "C04": P(160000, 3000000, expect_reach=["c04.trylock_fail", "c04.contended_invocations"],
